@@ -35,8 +35,9 @@ METADATA = [None, {}, {"a": 1}, {"exp": "Hi-C", "n": 3, "ok": True, "none": None
             {"nested": {"list": [1, 2.5, "x", None, [True, False]], "d": {"k": "v"}}},
             {"unicode": "héllo 世界", "empty": "", "long": "x" * 300},
             {"numbers": [0, -1, 2**40, 1e-9, 1.5e300], "s": "1", "t": "true"},
-            {"list": []}, {"k" * 40: {"deep": [{"a": [{"b": [1]}]}]}}]
-ASSEMBLIES = [None, "hg19", "mm10", "GRCh38.p13", "dm6_custom-build", "T2T-CHM13v2.0"]
+            {"list": []}, {"k" * 40: {"deep": [{"a": [{"b": [1]}]}]}},
+            [], [1, "two", {"three": 3}], 0, False, "", "free text"]          # any JSON document, falsy ones included
+ASSEMBLIES = [None, "hg19", "mm10", "GRCh38.p13", "dm6_custom-build", "T2T-CHM13v2.0", ""]
 
 
 def plan(tier, seed):
@@ -216,6 +217,10 @@ def one_case(ctx, cid, rng, idx):
             c.feature("arrayloader:chunk=1" if cs == 1 else ("arrayloader:chunk>n" if cs > n else "arrayloader:chunk-mid"))
             pixels = ArrayLoader(bins, arr, cs)
             kw["ordered"] = True
+            if rng.random() < 0.5:
+                # history: the same loader object already fed another creation (a second file from one loader)
+                cooler.create_cooler(ctx.path(), bins, pixels, **{**kw, **({} if symm else {"triucheck": False})})
+                c.feature("history:loader-object-reused")
         if not symm:
             kw["triucheck"] = False
         cooler.create_cooler(uri, bins, pixels, **kw)
@@ -271,9 +276,9 @@ def one_case(ctx, cid, rng, idx):
             info = clr.info
             c.check(info["nnz"] == len(P), "info-nnz", f"nnz={info['nnz']} but {len(P)} pixels given")
             wantmeta = {} if K["metadata"] is None else K["metadata"]
-            c.check(info.get("metadata") == wantmeta, "metadata-changed",
+            c.check(info.get("metadata") == wantmeta and type(info.get("metadata")) is type(wantmeta), "metadata-changed",
                     "info['metadata'] != the document given", lambda: {"got": info.get("metadata"), "want": wantmeta})
-            c.check(info.get("genome-assembly") == (K["assembly"] or "unknown"), "assembly-changed",
+            c.check(info.get("genome-assembly") == ("unknown" if K["assembly"] is None else K["assembly"]), "assembly-changed",
                     f"genome-assembly={info.get('genome-assembly')!r}, given {K['assembly']!r}")
             c.check(clr.storage_mode == ("symmetric-upper" if symm else "square"), "storage-mode-changed",
                     f"storage mode {clr.storage_mode}")
